@@ -38,6 +38,7 @@ import json
 import os
 import random
 import re
+import shutil
 import sys
 import time
 
@@ -49,7 +50,7 @@ import tlc  # noqa: E402
 
 PID = "C13"
 MODEL_INVS = ("TypeOK", "MachineIsFunction", "LawsHold", "KindsSound", "HistoryOK", "RedefLawsHold")
-HIST_LAW_INVS = ("TypeOK", "HistoryOK", "HistLawsAllCalls")
+HIST_LAW_INVS = ("TypeOK", "HistoryOK", "HistLawsAllCalls", "SplatLawsHold")
 PO = ["a1", "a2", "a3"]
 PK = ["b1", "b2", "b3"]
 KO = ["k1", "k2", "k3"]
@@ -64,6 +65,7 @@ DEV_KEYS = {"posonly": [DEV_KEY],
             "dropkw+kwignored": ["C13:defaults-assignment-drops-kwonly-defaults",
                                  "C13:kwdefaults-assignment-ignored"]}
 CHUNK = 130   # calls per generated module
+STUB_CHUNK = 400   # calls per module that calls a stub function
 # callables whose defaults are re-assigned in the history family, and the expression that is assigned to
 HKINDS = ("function", "method", "lambda", "staticmethod", "constructor")
 REDEF_TARGET = {"function": "f", "lambda": "f", "method": "C.m", "staticmethod": "C.sm",
@@ -113,6 +115,37 @@ def sig_text(sig, first=None):
   if sig["kw"]:
     parts.append("**kw")
   return ", ".join(parts)
+
+
+def stub_sig_text(sig):
+  """The same parameter list as a .pyi declaration: every parameter `: Any`, defaults `= ...`."""
+  pos = PO[:sig["po"]] + PK[:sig["pk"]]
+  parts = []
+  for i, n in enumerate(pos):
+    parts.append("%s: Any%s" % (n, " = ..." if i >= len(pos) - sig["pdef"] else ""))
+    if i == sig["po"] - 1:
+      parts.append("/")
+  if sig["va"]:
+    parts.append("*va: Any")
+  elif sig["ko"]:
+    parts.append("*")
+  for n in KO[:sig["ko"]]:
+    parts.append("%s: Any%s" % (n, " = ..." if n in sig["kdef"] else ""))
+  if sig["kw"]:
+    parts.append("**kw: Any")
+  return ", ".join(parts)
+
+
+def stub_text(sig):
+  return "from typing import Any\ndef f(%s) -> Any: ...\n" % stub_sig_text(sig)
+
+
+def render_stub_user(mod, maxpos, names):
+  """Marker classes of the actuals and the import of the stub module (the module that calls)."""
+  lines = ["class P%d: pass" % i for i in range(1, maxpos + 1)]
+  lines += ["class K_%s: pass" % n for n in names]
+  lines.append("import %s" % mod)
+  return lines, "%s.f" % mod
 
 
 def revealed(sig):
@@ -190,9 +223,34 @@ def render_header(sig, kind, maxpos, names, redefs=()):
   return lines, callee, rev
 
 
-def args_text(call):
-  return ", ".join(["P%d()" % i for i in range(1, call["npos"] + 1)]
-                   + ["%s=K_%s()" % (k, k) for k in call["kws"]])
+def args_text(call, splat=False):
+  # the other actuals of a splat call are integer LITERALS: with *xs AND a keyword whose value is not a
+  # constant (f(1, 2, *xs, z=K()) on def f(a, **kw)) pytype keeps the keyword dict opaque and checks nothing
+  if splat:
+    return ", ".join(["%d" % i for i in range(1, call["npos"] + 1)] + ["*xs"] + ["%s=0" % k for k in call["kws"]])
+  return ", ".join(["P%d()" % i for i in range(1, call["npos"] + 1)] + ["%s=K_%s()" % (k, k) for k in call["kws"]])
+
+
+SPLAT_PRELUDE = ["from typing import List", "class PX: pass", "def caller(xs: List[PX]):"]
+
+
+def cpython_splat_obs(header, sig, calls):
+  """f(P1(), .., *xs, k=K_k()) for xs = [PX()] * n, n = 0 .. (number of positional parameters + 1):
+  the outcome per length (the spec's SplatLen)."""
+  ns = {"reveal_type": lambda x: x}
+  exec(compile(header + "class PX: pass\n", "<c13-header>", "exec"), ns)   # pylint: disable=exec-used
+  out = []
+  for c in calls:
+    lens = []
+    for n in range(sig["po"] + sig["pk"] + 2):
+      ns["xs"] = [ns["PX"]()] * n
+      try:
+        eval("f(%s)" % args_text(c, True), ns)   # pylint: disable=eval-used
+        lens.append("none")
+      except TypeError as e:
+        lens.append(classify(str(e)))
+    out.append({"err": "/".join(lens), "bind": False, "slots": {"_": []}, "va": [], "kw": [], "lens": lens})
+  return out
 
 
 # ---------------------------------------------------------------------------------------------
@@ -323,11 +381,11 @@ def parse_dict(t):
 _TB = re.compile(r"^\s*line (\d+), in ")
 
 
-def pytype_obs(src, sig, rev, call_lines):
+def pytype_obs(src, sig, rev, call_lines, **optkw):
   """Analyse the module with the real pytype; returns (per call observation, other errors)."""
   # --no-skip-calls: every call executes the callee (and its reveal_type) even when an earlier call
   # of the module produced the same parameter values
-  r = pyt.analyze(src, check=True, want_ast=True, skip_repeat_calls=False)
+  r = pyt.analyze(src, check=True, want_ast=True, skip_repeat_calls=False, **optkw)
   if r["outcome"] == "crash":
     return None, r["exc"]
   if r["outcome"] != "result":
@@ -357,7 +415,7 @@ def pytype_obs(src, sig, rev, call_lines):
   out = []
   for line in sorted(call_lines):
     d = seen.get(line, {})
-    o = {"errs": sorted(errs.get(line, ())), "rev": all(n in d for n in want),
+    o = {"errs": sorted(errs.get(line, ())), "rev": not optkw and all(n in d for n in want),
          "slots": {"_": []}, "va": [], "vashape": "none", "kw": [], "kwkey": []}
     for n in param_names(sig):
       o["slots"][n] = sorted({m for t in d.get(n, ()) for m in members(t)})
@@ -383,21 +441,44 @@ def work(item):
   sig, kind, calls, maxpos = item[:4]
   redefs = list(item[4]) if len(item) > 4 else []
   names = sorted({k for c in calls for k in c["kws"]})
-  hl, callee, rev = render_header(sig, kind, max([maxpos] + [c["npos"] for c in calls]), names, redefs)
+  # a stub function: CPython binds a real `def` with the same parameter list (the oracle of the spec),
+  # pytype sees only `def f(..) -> Any: ...` in <mod>.pyi on the pythonpath
+  hl, callee, rev = render_header(sig, "function" if kind in ("stub", "splat") else kind,
+                                  max([maxpos] + [c["npos"] for c in calls]), names, redefs)
   header = "\n".join(hl) + "\n"
   stmts = {}
   for g, r in enumerate(redefs, 1):
     stmts.setdefault(r["at"], []).append(redef_text(sig, kind, r, g))
   common.require(all(0 <= a < len(calls) for a in stmts), "a re-assignment after the last call")
-  py = cpython_obs(header, callee, sig, calls, stmts)
+  if kind == "splat":
+    common.require(not redefs, "a splat module has no history")
+    py = cpython_splat_obs(header, sig, calls)
+    hl = hl + SPLAT_PRELUDE
+  else:
+    py = cpython_obs(header, callee, sig, calls, stmts)
   call_lines = {}
+  optkw = {}
+  if kind == "stub":
+    common.require(len(item) > 5 and not redefs, "a stub module needs its directory and has no history")
+    global _serial
+    _serial += 1
+    mod = "c13stub_%d_%d" % (os.getpid(), _serial)    # the reused loader caches modules by name
+    os.makedirs(item[5], exist_ok=True)
+    with open(os.path.join(item[5], mod + ".pyi"), "w") as f:
+      f.write(stub_text(sig))
+    hl, callee = render_stub_user(mod, max([maxpos] + [c["npos"] for c in calls]), names)
+    rev, optkw = {}, {"pythonpath": item[5]}
   lines = list(hl)
   for k, c in enumerate(calls):
     lines += stmts.get(k, [])
     call_lines[len(lines) + 1] = k
-    lines.append("%s(%s)" % (callee, args_text(c)))
+    lines.append("  f(%s)" % args_text(c, True) if kind == "splat" else "%s(%s)" % (callee, args_text(c)))
   src = "\n".join(lines) + "\n"
-  pt, other = pytype_obs(src, sig, rev, call_lines)
+  pt, other = pytype_obs(src, sig, rev, call_lines, **optkw)
+  if kind == "stub":
+    os.unlink(os.path.join(item[5], mod + ".pyi"))
+    common.require(pt is None or not [o for o in other if o[0] in ("import-error", "pyi-error", "module-attr")],
+                   "the stub module of a C13 case was not loaded: %r\n%s" % (other, stub_text(sig)))
   crash = ""
   if pt is None:     # pytype raised: every call of the module is unobserved; TLC reports `crash`
     crash, other = (other.strip().splitlines() or ["crash"])[0][:300], []
@@ -414,6 +495,13 @@ def work(item):
 def program_of(sig, kind, call, redefs=()):
   """The minimal program for a message / replay file (redefs: the re-assignments made before the call)."""
   names = sorted(call["kws"])
+  if kind == "stub":
+    hl, callee = render_stub_user("c13stub", call["npos"], names)
+    return ("".join("# c13stub.pyi: %s\n" % ln for ln in stub_text(sig).splitlines())
+            + "\n".join(hl + ["%s(%s)" % (callee, args_text(call))]) + "\n")
+  if kind == "splat":
+    hl, _, _ = render_header(sig, "function", call["npos"], names)
+    return "\n".join(hl + SPLAT_PRELUDE + ["  f(%s)" % args_text(call, True)]) + "\n"
   hl, callee, _ = render_header(sig, kind, call["npos"], names, redefs)
   hl += [redef_text(sig, kind, r, g) for g, r in enumerate(redefs, 1)]
   return "\n".join(hl + ["%s(%s)" % (callee, args_text(call))]) + "\n"
@@ -425,6 +513,7 @@ def hist_text(sig, kind, redefs):
 
 # ---------------------------------------------------------------------------------------------
 
+_serial = 0       # stub modules written by this process
 _PAIRS = {}       # (signature, npos, keywords) -> non-trivial?   (distinct pairs judged this run)
 _SAMPLED = set()  # outcome tags already written to the evidence samples
 
@@ -482,7 +571,20 @@ def judge(run, items, procs=8):
       common.require(len(rec["calls"]) == len(c["calls"]), "STAT line does not cover its case")
       skey = sig_text(c["sig"])
       hist = bool(c["redefs"])
-      for call, (ek, nva, nkw, dev, stage, effect) in zip(c["calls"], rec["calls"]):
+      for call, (ek, nva, nkw, dev, stage, effect, splat) in zip(c["calls"], rec["calls"]):
+        if c["kind"] == "splat":
+          # f(.., *xs, ..) with a list of unknown length: splat = binds / depends / the cause of every
+          # length's TypeError
+          run.add("splat_calls")
+          run.add("splat_" + splat)
+          if c["sig"]["va"]:
+            run.add("splat_" + splat + "_callee_has_varargs")
+          if "splat-" + splat not in sampled and splat in ("missing_kwonly", "binds", "depends"):
+            sampled.add("splat-" + splat)
+            run.sample({"program": program_of(c["sig"], "splat", call), "spec": splat,
+                        "cpython_per_length": call["py"]["lens"], "pytype": call["pt"]["errs"]})
+          pairs[(skey + " [splat]", call["npos"], tuple(sorted(call["kws"])))] = True
+          continue
         if hist:
           # the history family has its own counters (the guards of the plain families stay as they were)
           run.add("hist_calls")
@@ -500,6 +602,20 @@ def judge(run, items, procs=8):
                             "cpython": call["py"], "pytype": call["pt"]})
           pairs[(skey + hist_text(c["sig"], c["kind"], c["redefs"][:stage]), call["npos"],
                  tuple(sorted(call["kws"])))] = True
+          continue
+        if c["kind"] == "stub":
+          # stub functions have their own counters too (only the error-iff-Err clause is judged)
+          run.add("stub_calls")
+          run.add("stub_calls_" + ek)
+          if dev:
+            run.add("stub_calls_posonly_name_as_keyword_with_kwargs")
+            run.add("stub_calls_posonly_name_as_keyword_with_kwargs_" + ("err" if ek != "none" else "bound"))
+          if "stub-" + ek not in sampled:
+            sampled.add("stub-" + ek)
+            if ek in ("none", "keyword", "missing"):
+              run.sample({"program": program_of(c["sig"], "stub", call), "spec": ek,
+                          "cpython": call["py"]["err"], "pytype": call["pt"]["errs"]})
+          pairs[(skey + " [stub]", call["npos"], tuple(sorted(call["kws"])))] = True
           continue
         run.add("calls_" + ek)
         run.add("calls_%s_%s" % ("err" if ek != "none" else "bound", c["kind"]))
@@ -542,7 +658,19 @@ def judge(run, items, procs=8):
                 {n: v for n, v in call["py"]["slots"].items() if n != "_"}
                 | ({"*va": call["py"]["va"]} if c["sig"]["va"] else {})
                 | ({"**kw": call["py"]["kw"]} if c["sig"]["kw"] else {}), sort_keys=True)))
-        if dev:
+        if c["kind"] == "splat":
+          common.require(not dev, "TraceC13 attributes a splat call to a deviation")
+          what = ("%s: def f(%s), call f(%s) inside `def caller(xs: List[PX])`: pytype errors %s; CPython for "
+                  "len(xs) = 0..%d: %s" % (clause, sig_text(c["sig"]), args_text(call, True), call["pt"]["errs"],
+                                           len(call["py"]["lens"]) - 1, call["py"]["err"]))
+          keys = ["C13:" + clause]
+        elif c["kind"] == "stub":
+          common.require(not dev, "TraceC13 attributes a stub call to a deviation of source functions")
+          what = "%s: c13stub.pyi `def f(%s) -> Any: ...`, call c13stub.f(%s): pytype errors %s; CPython: %s" % (
+              clause, stub_sig_text(c["sig"]), args_text(call), call["pt"]["errs"],
+              call["py"]["err"] if call["py"]["err"] != "none" else "binds")
+          keys = ["C13:stub:" + clause]
+        elif dev:
           common.require(dev in DEV_KEYS, "unknown attribution %r from TraceC13" % dev)
           keys = DEV_KEYS[dev]
           run.add(("posonly_kw_dev_" if dev == "posonly" else "hist_dev_%s_" % dev) + clause.split(":")[0])
@@ -652,7 +780,11 @@ def main():
     call = calls[0]
     redefs = [{"at": r.get("at", 0), "attr": r["attr"], "pdef": r["pdef"], "kdef": list(r["kdef"])}
               for r in case.get("redefs") or []]
-    n = judge(run, [(sig, case.get("kind", "function"), calls, max(c["npos"] for c in calls), redefs)])
+    sdir = os.path.join(boot.BUILD, "c13-stubs-%d" % os.getpid())
+    try:
+      n = judge(run, [(sig, case.get("kind", "function"), calls, max(c["npos"] for c in calls), redefs, sdir)])
+    finally:
+      shutil.rmtree(sdir, ignore_errors=True)
     run.put("traces_validated_against_impl", n)
     run.put("states", 1); run.put("transitions", 1)
     run.sample({"def": "def f(%s)" % sig_text(sig), "kind": case.get("kind", "function"),
@@ -702,12 +834,20 @@ def main():
     # every signature with a seeded share of the call shapes.
     share = 0.25 if thorough else 0.12
     items = []
+    sdir = os.path.join(boot.BUILD, "c13-stubs-%d" % os.getpid())
     for k, (sig, calls) in enumerate(sigs):
       for kind in KINDS:
         cs = calls if kind == "function" else pick(rng, calls, max(12, int(len(calls) * share)))
         nch = (len(cs) + CHUNK - 1) // CHUNK      # pytype is superlinear in the module size
         for j in range(nch):
           items.append((sig, kind, cs[j::nch], maxpos))
+      # the same signature known only from a .pyi stub (PyTDSignature binds those, not SignedFunction):
+      # every call shape (no callee body is analysed: cheap)
+      nch = (len(calls) + STUB_CHUNK - 1) // STUB_CHUNK
+      for j in range(nch):
+        items.append((sig, "stub", calls[j::nch], maxpos, [], sdir))
+      # a seeded share of the call shapes with an indefinite splat after the fixed positionals
+      items.append((sig, "splat", pick(rng, [c for c in calls if c["npos"] <= 3], 120 if thorough else 60), maxpos))
     if thorough:
       # larger signatures (<= 3 parameters of each kind, <= 5 positionals): a seeded sample of the
       # signatures, a seeded sample of their call shapes, plain functions
@@ -747,7 +887,10 @@ def main():
     items += hitems
     # biggest modules first (better packing of the pool)
     items.sort(key=lambda it: -len(it[2]))
-    ncalls = judge(run, items, procs=8)
+    try:
+      ncalls = judge(run, items, procs=8)
+    finally:
+      shutil.rmtree(sdir, ignore_errors=True)
     for job, label in ((jm, "n2"), (jm3, "n3"), (jh, "hist_machine"), (jl, "hist_laws")):
       if job is None:
         continue
@@ -782,6 +925,23 @@ def main():
                    "vacuity: too few calls rendered as " + kind)
   common.require(cv.get("bound_with_varargs_items", 0) >= 200 and cv.get("bound_with_kwargs_items", 0) >= 200,
                  "vacuity: too few bound calls that fill *va / **kw")
+  # stub functions: bound calls, every Err kind, and the shape "keyword named like a positional-only
+  # parameter while the stub has **kw" with both outcomes
+  for kname, least in (("none", 1000), ("keyword", 1000), ("too_many", 300), ("missing", 300),
+                       ("missing_kwonly", 300)):
+    common.require(cv.get("stub_calls_" + kname, 0) >= least, "vacuity: only %d calls of a stub function with "
+                   "spec outcome %s" % (cv.get("stub_calls_" + kname, 0), kname))
+  for oc in ("err", "bound"):
+    common.require(cv.get("stub_calls_posonly_name_as_keyword_with_kwargs_" + oc, 0) >= 100,
+                   "vacuity: too few stub calls (%s) with a keyword named like a positional-only parameter "
+                   "of a stub that has **kw" % oc)
+  # indefinite splats: both judged outcomes, the causes, and "required keyword-only parameter not
+  # passed to a callee that has *va" (there pytype keeps the splat opaque)
+  for tag, least in (("binds", 100), ("depends", 300), ("keyword", 300), ("missing_kwonly", 100),
+                     ("too_many", 30), ("missing_kwonly_callee_has_varargs", 40),
+                     ("binds_callee_has_varargs", 100)):
+    common.require(cv.get("splat_" + tag, 0) >= least, "vacuity: only %d splat calls classified %s" % (
+        cv.get("splat_" + tag, 0), tag))
   # histories: calls judged after a re-assignment whose outcome the re-assignment decides
   for eff, least in (("lost", 150), ("gained", 150), ("newdef", 150)):
     common.require(cv.get("hist_" + eff, 0) >= least, "vacuity: only %d calls after a re-assignment of the "
@@ -797,9 +957,20 @@ def main():
     common.require(cv.get("hist_calls_stage2", 0) >= 500, "vacuity: too few calls after a second re-assignment")
   run.assumptions += [
       "signatures: parameters without annotations; defaults are instances of marker classes; calls pass "
-      "plain positional and keyword actuals (no *iterable / **mapping at the call site)",
+      "plain positional and keyword actuals; the splat family adds ONE `*xs` after the fixed positionals with "
+      "xs: List[PX] a parameter of the calling function (length unknown), judged only where every length 0.."
+      "NPosParams+1 has the same CPython outcome (error presence only); the fixed positionals of a splat call "
+      "and the keyword values are integer literals (with *xs and a keyword whose value is not a constant, e.g. "
+      "f(1, 2, *xs, z=K()) on def f(a, **kw) or f(1, 2, *xs, b=K()) on def f(a, b), pytype reports nothing "
+      "although every length raises - observed, genuine, outside this family); no **mapping actuals, no splat of a "
+      "tuple of known length, no splat in front of positionals",
       "callables: module-level function, method on an instance, classmethod and staticmethod through the "
       "class, constructor through __init__; decorators, overloads, __new__ and __call__ are not covered",
+      "stub functions: every exported signature also as `def f(a1: Any, /, b1: Any = ..., *va: Any, k1: Any, "
+      "**kw: Any) -> Any: ...` in a .pyi module on the pythonpath, called as <module>.f(..) with every call "
+      "shape; only error-iff-TypeError is judged for them (a stub has no body to reveal parameters in); all "
+      "annotations are Any, so no wrong-arg-types can interfere; overloaded stubs, stub methods and builtins "
+      "are not covered",
       "histories: the defaults are re-assigned at module level between the calls with a tuple display "
       "(<f>.__defaults__ = (D1_b1(), ..), at most as many values as positional parameters) or a dict display "
       "(<f>.__kwdefaults__ = {'k1': D1_k1()}) on a function, a lambda, C.m (called as o.m), C.sm (staticmethod) "
